@@ -170,6 +170,10 @@ def op_args(fn, dk):
             else:
                 from whad.scapy.layers.esb import ESB_Hdr, ESB_Payload_Hdr
                 args[name] = ESB_Hdr(address="11:22:33:44:55") / ESB_Payload_Hdr() / Raw(b"\x01\x02\x03")
+        elif name in ("connection_data", "disconnection_data"):
+            from whad.hub.events import ConnectionEvt
+            args[name] = ConnectionEvt(conn_handle=1, initiator=b"\x11" * 6, advertiser=b"\x22" * 6, access_address=0,
+                                       adv_addr_type=0, init_addr_type=0, reason=0x13)
         elif name == "pattern":
             args[name] = b"\xaa"
         elif name in ("access_address", "address"):
@@ -310,7 +314,28 @@ def main():
         res["ctors"].append(outcome(lambda: rcls[rid](dev, **kw) or True, dev))
     # ---- guarded operations
     ocls = {}
+    def device_event(conn, dev, dk, name):
+        """a notification originating from the device, delivered the way the connector's I/O thread
+        delivers it: Connector.on_device_event(MessageReceived(device, hub message))"""
+        from whad.device.device import MessageReceived
+        h = dev.hub
+        if dk == "ble":
+            from whad.hub.ble.bdaddr import BDAddress
+            from whad.hub.ble.chanmap import ChannelMap
+            a, b = BDAddress("11:22:33:44:55:66"), BDAddress("66:55:44:33:22:11")
+            msg = {"connected": lambda: h.ble.create_connected(a, b, 0x12345678, 1),
+                   "disconnected": lambda: h.ble.create_disconnected(0x13, 1),
+                   "synchronized": lambda: h.ble.create_synchronized(0x12345678, 6, 5, ChannelMap(), 0x123456),
+                   "desynchronized": lambda: h.ble.create_desynchronized(0x12345678),
+                   "triggered": lambda: h.ble.create_triggered(0)}[name]()
+        else:
+            msg = {"jammed": lambda: getattr(h, dk).create_jammed(1234),
+                   "ed_sample": lambda: h.dot15d4.create_energy_detection_sample(1234, 5)}[name]()
+        return outcome(lambda: conn.on_device_event(MessageReceived(dev, msg)) or True, dev)
+
     def call_method(conn, dev, dk, meth):
+        if meth.startswith("@"):
+            return device_event(conn, dev, dk, meth[1:])
         fn = getattr(conn, meth)
         kw = op_args(fn, dk)
         return outcome(lambda: fn(**kw), dev)
